@@ -41,10 +41,25 @@ def dense_of(a):
         return None
 
 
-def same_dense(x, y):
+SINGLE = (np.dtype('float32'), np.dtype('complex64'))
+
+
+def same_dense(x, y, exact=True):
+    """exact: entries are small integers / dyadic numbers (every history before its first factorization); after a
+    factorization (LAPACK output) the comparison is relative to the largest entry"""
     if x is None or y is None:
         return True
-    return x.shape == y.shape and np.array_equal(np.asarray(x, dtype=np.complex128), np.asarray(y, dtype=np.complex128))
+    if x.shape != y.shape:
+        return False
+    X, Y = np.asarray(x, dtype=np.complex128), np.asarray(y, dtype=np.complex128)
+    if exact:
+        return np.array_equal(X, Y)
+    if X.size == 0:
+        return True
+    if not (np.all(np.isfinite(X)) and np.all(np.isfinite(Y))):
+        return bool(np.array_equal(np.isfinite(X), np.isfinite(Y)))
+    eps = 1.e-3 if (x.dtype in SINGLE or y.dtype in SINGLE) else 1.e-8
+    return bool(np.max(np.abs(X - Y)) <= eps * max(1.0, float(np.max(np.abs(X))), float(np.max(np.abs(Y)))))
 
 
 def run_history(case, level=0, steps=None, record=True):
@@ -105,6 +120,8 @@ def run_history(case, level=0, steps=None, record=True):
             info = run()
             if info.get('scalar'):
                 rec['status'] = 'scalar'
+            if info.get('cov'):
+                rec['cov'] = info['cov']
         except Exception as e:
             rec['status'] = 'error'
             rec['err'] = io.err_class(e)
@@ -146,9 +163,16 @@ def run_history(case, level=0, steps=None, record=True):
                     bad = True
                     fail('qtotal', f'{n}: qtotal {[int(x) for x in env[n].qtotal]}, documented function gives {q}', k, st)
             for n, d in info['dense'].items():
-                if d is not None and not same_dense(dense_of(env[n]), d):
+                if d is not None and not same_dense(dense_of(env[n]), d, exact=not Hh.inexact):
                     bad = True
                     fail('dense', f'{n}: dense result differs from the numpy result', k, st)
+            if info.get('contract') and not bad:
+                bad = True
+                fail('contract', '; '.join(info['contract']), k, st)
+            if info.get('recon') and not bad and not info['recon'][0] <= info['recon'][1]:
+                bad = True
+                fail('recon', f'product of the factors differs from the matrix: max abs error {info["recon"][0]:.3e} '
+                              f'(tolerance {info["recon"][1]:.1e})', k, st)
             for key, n in info['outs'].items():
                 rec['outs'][key] = struct_of(dump_arr(env[n], io))
         if bad:
@@ -164,7 +188,7 @@ def run_history(case, level=0, steps=None, record=True):
                 if o:
                     fail('level3-insane', f'{n}: {o}', len(out_steps), None)
             final[n] = dense_of(t)
-    return dict(init=init, steps=out_steps, trace=trace, fails=fails, final=final)
+    return dict(init=init, steps=out_steps, trace=trace, fails=fails, final=final, inexact=Hh.inexact)
 
 
 def classify_unexpected_raise(case, res):
@@ -196,7 +220,7 @@ def run_case(case):
             res['fails'].append(f)
         if not r3['fails']:
             for n, d in res['final'].items():
-                if n in r3['final'] and not same_dense(d, r3['final'][n]):
+                if n in r3['final'] and not same_dense(d, r3['final'][n], exact=not res.get('inexact')):
                     res['fails'].append(dict(what='level3-differs', step=len(res['steps']), op='history', tag=None,
                                              detail=f'{n}: dense result at optimisation level 3 differs from level 0'))
                     break
